@@ -15,10 +15,15 @@ SPEC = {
         "lean/N2k/Gen/Layouts.lean and lean/N2k/Gen/LayoutProofs.lean from src/N2kMessages.cpp, src/N2kMaretron.cpp and "
         "src/NMEA2000.cpp on every run; it is validated on every run by the correspondence: the real setter's bytes and the "
         "real parser's outputs on generated tuples must equal `encode` / `parseMsg` of the generated layouts",
+        "a setter that branches on an integer parameter compared with constants (129029 reference stations, 126993 interval "
+        "limit) is translated once per path (pairs <pgn>_t / <pgn>_e with the path condition `setCond`); the parser is then read "
+        "under the payload constants that path writes, which are recorded as `payloadGuard` and proved to be written "
+        "(`payloadGuardOK`). Which path applies to a tuple is decided by the driver from `setCond` and validated by the "
+        "correspondence only",
         "outside the translated fragment (reported in evidence coverage.translator.layouts): SetN2kPGN126464 (loop), the "
-        "Append... builders and the per-satellite parser of 129540, variable-length strings and everything behind them, values "
-        "assigned inside conditionals (129029 reference station fields, 127513 Peukert exponent). Those are covered by the "
-        "harness' direct round-trip oracle only",
+        "Append... builders and the per-satellite parser of 129540, variable-length strings and everything behind them, "
+        "floating-point conditionals (127513 Peukert exponent), parser conditionals on non-constant payload (129029 without "
+        "reference station). Those are covered by the harness' direct round-trip oracle only",
         "width W of a field: enumeration range (C++ [dcl.enum]: the values of an unscoped enumeration are 0 .. 2^M-1 for the "
         "smallest M covering the enumerators), 1 for bool, the named non-reserved bits of a status union, 8w for a scaled "
         "field, and for plain integers the number of bits the setter stores; the harness draws integer inputs from the same W",
@@ -53,6 +58,6 @@ MANIFEST = {
     'note': "Trusted: Lean kernel; the translator (validated by the differential run on every run, and by a failing `decide` "
             "whenever setter and parser disagree); IEEE conversion of scaled fields is C06's; string content is C16's. Not "
             "translated (oracle only): 126464, Append builders / 129540 satellites, variable strings and what follows them, "
-            "fields inside conditionals. Models the tree with the ten C05 fix commits; one open finding (130311 humidity source "
+            "floating-point conditionals. Models the tree with the ten C05 fix commits; one open finding (130311 humidity source "
             "NA) is stated as a kernel-checked mismatch.",
 }
